@@ -21,6 +21,10 @@ type GenCfg struct {
 	PRejectLen  float64
 	PRejectSem  float64
 	PScribble   float64
+	// PBigList: probability that a "more than four terms" multi-scalar call gets a threshold-sized list
+	PBigList float64
+	// PGC: probability per step of a forced garbage collection (twice: empties sync.Pool and its victim cache)
+	PGC float64
 	PProbe      float64
 	PRelatives  float64 // probability of the related-operands macro
 	PImport     float64 // probability of the export/scale/import macro
@@ -474,11 +478,11 @@ func (g *Gen) buildCall(op *OpDesc) (Call, bool) {
 			if rng.Bool(0.25) {
 				n = 13 + rng.Intn(21) // long term lists: 13..33
 			}
-			if rng.Bool(0.02) {
-				n = []int{64, 65, 130, 257, 300}[rng.Intn(5)] // batch-size thresholds of bulk verifiers
+			if rng.Bool(g.cfg.PBigList) {
+				n = thresholdSize(rng, 300) // batch-size thresholds of bulk verifiers
 			}
-			if rng.Bool(0.003) {
-				n = []int{513, 600, 1025}[rng.Intn(3)]
+			if rng.Bool(g.cfg.PBigList * 0.15) {
+				n = thresholdSize(rng, 1100)
 			}
 		}
 		if n > 0 && (len(ip) == 0 || len(w.S) == 0) {
@@ -775,6 +779,10 @@ func (g *Gen) randomStep() {
 	cfg := g.cfg
 	w := g.r.W
 	// pseudo-operations and macros first
+	if cfg.PGC > 0 && rng.Bool(cfg.PGC) {
+		g.push(Call{Op: "H.GC", Fault: "gc/pool-eviction"})
+		return
+	}
 	if len(g.r.Ledger) > 0 && rng.Bool(cfg.PScribble) {
 		g.push(Call{Op: "H.Scribble", L: rng.Intn(len(g.r.Ledger)), Mode: rng.Uint64(), Fault: "scribble"})
 		return
@@ -1108,6 +1116,23 @@ func (g *Gen) oneRelationQuadruple(e []int) {
 	}
 }
 
+// thresholdSize draws a term-list length around the sizes at which an
+// implementation may plausibly switch strategy (chunking, bucket methods, pooled
+// scratch): m*b-1, m*b, m*b+1 for round b and small m, or any length up to max.
+func thresholdSize(rng *prng.Rand, max int) int {
+	bases := []int{8, 16, 32, 64, 128, 256, 512, 1024, 10, 50, 100, 200, 250, 500, 1000}
+	for try := 0; try < 40; try++ {
+		if rng.Bool(0.2) {
+			return 34 + rng.Intn(max-33)
+		}
+		n := bases[rng.Intn(len(bases))]*(1+rng.Intn(4)) + rng.Intn(3) - 1
+		if n >= 5 && n <= max {
+			return n
+		}
+	}
+	return max
+}
+
 // misuseStep injects a zero-value Point at one input position, or a length
 // mismatch into a multi-scalar call.
 func (g *Gen) misuseStep() bool {
@@ -1128,10 +1153,29 @@ func (g *Gen) misuseStep() bool {
 	}
 	if op.Multi && rng.Bool(0.4) {
 		// length mismatch
-		if rng.Bool(0.5) && len(c.S) > 0 {
+		if rng.Bool(0.15) {
+			// ... on a long list, where an implementation may take another path
+			ip := g.initPoints()
+			n := thresholdSize(rng, 700)
+			c.P, c.S = nil, nil
+			for i := 0; i < n && len(ip) > 0; i++ {
+				c.P = append(c.P, ip[rng.Intn(len(ip))])
+				c.S = append(c.S, rng.Intn(len(g.r.W.S)))
+			}
+		}
+		switch {
+		case rng.Bool(0.4) && len(c.S) > 0:
 			c.S = c.S[:len(c.S)-1]
-		} else {
+		case rng.Bool(0.3) && len(c.P) > 0:
+			c.P = c.P[:len(c.P)-1] // more scalars than points
+		case rng.Bool(0.5):
 			c.S = append(c.S, rng.Intn(len(g.r.W.S)))
+		default:
+			if ip := g.initPoints(); len(ip) > 0 {
+				c.P = append(c.P, ip[rng.Intn(len(ip))])
+			} else {
+				c.S = append(c.S, rng.Intn(len(g.r.W.S)))
+			}
 		}
 		c.Fault = "misuse/len"
 		g.push(c)
@@ -1470,6 +1514,27 @@ func (g *Gen) enumMisuse() {
 						g.push(saved, c)
 						// the slot z stays zero; re-initialise it so that the pool does not drain
 						g.push(Call{Op: "Point.SetBytes", R: z, HasB: true, B: g.validPointEnc()})
+					}
+				}
+				// length mismatches on long lists: one more / one fewer scalar than points
+				for _, lp := range []int{16, 64, 128, 129, 256, 257, 258, 512, 513, 600, 1025} {
+					if lp > 129 && !rng.Bool(0.25) {
+						continue
+					}
+					for _, d := range []int{-1, 1, 2, -lp / 2} {
+						ip := g.initPoints()
+						if len(ip) == 0 {
+							continue
+						}
+						c := Call{Op: op.Name, Fault: "misuse/len", P: []int{}, S: []int{}}
+						for i := 0; i < lp; i++ {
+							c.P = append(c.P, ip[rng.Intn(len(ip))])
+						}
+						for i := 0; i < lp+d; i++ {
+							c.S = append(c.S, rng.Intn(len(w.S)))
+						}
+						c.R = rng.Intn(len(w.P))
+						g.push(c)
 					}
 				}
 				// length mismatches
